@@ -150,7 +150,12 @@ class Number(Parser):
         stream.take()
         while stream.peek().isdecimal():
             out += stream.take()
-        output.append(int(out))
+        try:
+            output.append(int(out))
+        except ValueError:
+            # more digits than the interpreter converts
+            # (sys.get_int_max_str_digits())
+            stream.error('<number>')
 
     def __str__(self):
         return '<number>'
